@@ -525,19 +525,51 @@ def alias_of(name):
     return camel(name)
 
 
+def colliding_names(funs):
+    """keyword names that a ** parameter would hand to the payload under the python name of another
+    parameter (python itself then raises TypeError: multiple values) - not generated"""
+    out = set()
+    for f in funs:
+        if f["starstar"]:
+            for p in f["pos"] + f["kwonly"]:
+                if camel(p[0]) != p[0]:
+                    out.add(p[0])
+    return out
+
+
+def gen_value_for(rng, kind):
+    """a value the parameter kind accepts, mostly"""
+    if kind is None or rng.random() < 0.25 or kind[0] != "T":
+        return gen_value(rng)
+    t = kind[1]
+    if kind[2] and rng.random() < 0.15:
+        return "null"
+    if t == 0:
+        return gen_value(rng)
+    cands = [c for c in range(1, 7) if issubclass(CLASSES[c], CLASSES[t])]
+    return ["obj", rng.choice(cands)]
+
+
 def gen_call(rng, family):
     funs = [f for l in family["chain"] for f in l["funs"]]
-    recv = gen_value(rng) if rng.random() < 0.4 else None
+    has_meth = any(f["kind"] != "function" for f in funs)
     target = rng.choice(funs) if funs else None
+    if target is not None and target["kind"] == "method":
+        with_recv = rng.random() < 0.9
+    elif target is not None and target["kind"] == "function":
+        with_recv = rng.random() < (0.15 if has_meth else 0.05)
+    else:
+        with_recv = rng.random() < 0.5
     vis = [p for p in (target["pos"] if target else []) if p[1] != ["H"]]
-    nvis = len(vis) - (1 if recv is not None and vis else 0)
+    recv = gen_value_for(rng, vis[0][1] if vis else None) if with_recv else None
     vis_rest = vis[1:] if recv is not None and vis else vis
+    nvis = len(vis_rest)
     r = rng.random()
-    npos = nvis if r < 0.55 else rng.randrange(0, nvis + 1) if r < 0.85 else nvis + rng.choice([1, 2])
+    npos = nvis if r < 0.5 else rng.randrange(0, nvis + 1) if r < 0.85 else nvis + rng.choice([1, 2])
     next_id = itertools.count(1)
 
-    def simple(eager_bias=0.65):
-        v = gen_value(rng)
+    def simple(kind=None, eager_bias=0.65):
+        v = gen_value_for(rng, kind)
         r2 = rng.random()
         if r2 < eager_bias:
             return ["expr", next(next_id), v]
@@ -550,25 +582,30 @@ def gen_call(rng, family):
         if rng.random() < 0.1:
             args.append(["skip"])
         else:
-            args.append(simple())
+            args.append(simple(vis_rest[i][1] if i < nvis else (target["star"][1] if target and target["star"] else None)))
     # keyword spellings for parameters not given positionally (aliases), sometimes wrong / duplicated names
-    kwnames = [alias_of(p[0]) for p in vis_rest[npos:]] + [alias_of(p[0]) for p in (target["kwonly"] if target else []) if p[1] != ["H"]]
+    later = [p for p in vis_rest[npos:]] + [p for p in (target["kwonly"] if target else []) if p[1] != ["H"]]
     mapped, pykw = [], []
-    for n in kwnames:
-        if rng.random() < 0.7:
-            s = simple()
+    for p in later:
+        n = alias_of(p[0])
+        if rng.random() < (0.85 if p[2] is None else 0.5):
+            s = simple(p[1])
             if s[0] == "raw" or rng.random() < 0.15:
-                pykw.append([n, gen_value(rng)])
+                pykw.append([n, gen_value_for(rng, p[1])])
             else:
                 mapped.append(["mapc", n, s[1]] if s[0] == "const" else ["mape", n, s[1], s[2]])
     if rng.random() < 0.15:
-        n = rng.choice(["zz", "x_y", "a", "k", "xY", "val", "val_"])
+        n = rng.choice([x for x in ["zz", "x_y", "a", "k", "xY", "val", "val_"] if x not in colliding_names(funs)])
         if rng.random() < 0.5:
-            if n not in [k for k, _ in pykw]:
-                pykw.append([n, gen_value(rng)])
+            pykw.append([n, gen_value(rng)])
         else:
-            s = simple(0.8)
+            s = simple(None, 0.8)
             mapped.append(["mape", n, s[1], s[2]] if s[0] == "expr" else ["mapc", n, s[1]])
+    if mapped and rng.random() < 0.04:
+        pykw.append([rng.choice(mapped)[1], gen_value(rng)])          # the same name twice: translation error
+    if mapped and rng.random() < 0.04:
+        m = rng.choice(mapped)
+        mapped.append(["mape", m[1], next(next_id), gen_value(rng)])   # the same name in two mapping arguments
     # mapping expressions may stand anywhere among the positional arguments
     for m in mapped:
         if rng.random() < 0.8:
